@@ -12,11 +12,14 @@ from ..util import (has_call, find_calls, assigned_value, const_str, unparse, kw
                     guards_of, call_tail, control_ancestors)
 from .. import mutate as M
 
+TECHNIQUE = 'static analysis: interface completeness over the class hierarchy, key-set agreement (len/iter == keys expression), load-once typestate, purity of accessors, sibling decode-guard agreement, producer/consumer marker agreement, statelessness of row filters'
+
 EXPLANATION = ("Family rules over every subclass of Dense_/Sparse_ (computed): required methods present; every self "
                "attribute that keys() combines into the key set is also used by __len__, __iter__ and items (or they "
                "delegate to keys()); the lazy loader is called only in _load_or_get which stores its result; accessors write "
                "no self state but that memo; __getitem__ never falls off its end (CFG path check); LabelDense/LabelSparse "
                "use one index/key for feats, label and labeled; DropOne's len/getitem/iter agree on the dropped index.")
+EXPLANATION += " R8: all decode guards of the lazy rows are the same; R9: the 'no headers' marker of producer and consumer agree; R10: row filters are stateless."
 
 ROWS = "coba/pipes/rows.py"
 PRIM = "coba/primitives.py"
